@@ -101,8 +101,8 @@ Proof.
 Qed.
 Print Assumptions C10_code_is_model.
 
-(* FST.from_string: the model the correspondence run evaluates (fst_of_string) relates x to x with weight one and
-   nothing else. *)
+(* FST.from_string: its model (fst_of_string = the diagonal of the string automaton) relates x to x with weight one
+   and nothing else -- the specification the run compares the implementation's from_string with. *)
 From GV.model Require FstCompose.
 From GV.proofs Require FstStringProofs.
 Theorem C10_from_string : forall (S : SR) (x : list nat) (fuel : nat) (xs ys : list nat), length xs <= fuel ->
